@@ -118,6 +118,76 @@ theorem written_pieces (io : Nat) (hio : 1 ≤ io) :
 theorem read_le_count (file : Bytes) (io off cnt : Nat) : (clntRead file io off cnt).length ≤ cnt := by
   unfold clntRead readAt; rw [List.length_take]; omega
 
+/-- `File.Read` called repeatedly with any sequence of counts: each call returns the bytes at the
+    file's current offset and advances the offset by what it returned -/
+def fileReads (file : Bytes) (io : Nat) : Nat → List Nat → List Bytes
+  | _, [] => []
+  | off, c :: cs =>
+    let b := clntRead file io off c
+    b :: fileReads file io (off + b.length) cs
+
+/-- …so the pieces are consecutive: joined, they are exactly the bytes of the file from the
+    starting offset on, as many as were returned — nothing skipped, nothing repeated, nothing
+    from elsewhere. -/
+theorem sequential_reads_are_consecutive (file : Bytes) (io : Nat) (cs : List Nat) (off : Nat) :
+    (fileReads file io off cs).flatten =
+      readAt file off ((fileReads file io off cs).flatten).length := by
+  induction cs generalizing off with
+  | nil => simp [fileReads, readAt]
+  | cons c cs ih =>
+    simp only [fileReads, List.flatten_cons, List.length_append]
+    rw [ih]
+    generalize hk : ((fileReads file io (off + (clntRead file io off c).length) cs).flatten).length = k
+    have hb : clntRead file io off c = readAt file off (clntRead file io off c).length := by
+      unfold clntRead readAt
+      rw [List.length_take, List.take_eq_take_iff]
+      simp only [List.length_drop]
+      omega
+    generalize hm : (clntRead file io off c).length = m at hb ⊢
+    rw [hb]
+    unfold readAt
+    simp only [List.length_take]
+    generalize hm' : min m (List.drop off file).length = m'
+    have hmm : m' = m := by
+      -- the first read returned m bytes, so m bytes were there
+      have : (clntRead file io off c).length ≤ (List.drop off file).length := by
+        unfold clntRead readAt; rw [List.length_take]; omega
+      omega
+    subst hmm
+    rw [take_split, List.drop_drop]
+    congr 1
+    rw [List.take_eq_take_iff]
+    omega
+
+/-- Writing consecutive pieces one after the other leaves the file exactly as one write of the
+    whole data at the first offset would (any chunking, any iounit). -/
+theorem chunked_writes_equal_one_write (file : Bytes) (off : Nat) (d1 d2 : Bytes) :
+    writeAt (writeAt file off d1) (off + d1.length) d2 = writeAt file off (d1 ++ d2) := by
+  unfold writeAt
+  have hlen : ((file ++ List.replicate (off - file.length) 0).take off).length = off := by
+    rw [List.length_take, List.length_append, List.length_replicate]; omega
+  generalize hA : (file ++ List.replicate (off - file.length) 0).take off = A at hlen
+  have hL : (A ++ d1 ++ List.drop (off + d1.length) file).length ≥ off + d1.length := by
+    simp only [List.length_append]; omega
+  have e1 : off + d1.length - (A ++ d1 ++ List.drop (off + d1.length) file).length = 0 := by omega
+  rw [e1]
+  simp only [List.replicate_zero, List.append_nil]
+  have e2 : (A ++ d1 ++ List.drop (off + d1.length) file).take (off + d1.length) = A ++ d1 := by
+    rw [List.take_append_of_le_length (by simp only [List.length_append]; omega)]
+    rw [List.take_of_length_le (by simp only [List.length_append]; omega)]
+  rw [e2]
+  have e3 : (A ++ d1 ++ List.drop (off + d1.length) file).drop (off + d1.length + d2.length)
+      = file.drop (off + (d1 ++ d2).length) := by
+    have : off + d1.length + d2.length = (A ++ d1).length + d2.length := by
+      simp only [List.length_append]; omega
+    rw [this, List.drop_append]
+    rw [List.drop_of_length_le (by omega)]
+    simp only [List.length_append, List.nil_append, List.drop_drop]
+    congr 1
+    omega
+  rw [e3]
+  simp [List.append_assoc]
+
 /-! ### non-vacuity -/
 example : readn [1, 2, 3, 4, 5, 6, 7] 3 101 2 100 = [3, 4, 5, 6, 7] := by decide
 example : (pieces 3 8 10 [1, 2, 3, 4, 5, 6, 7]).map (·.1) = [10, 13, 16] := by decide
